@@ -22,6 +22,20 @@ func runC16(ctx *core.Ctx) {
 	ctx.Rule("U3", "quoting at the update site: the stored body is NeedsQuote-negative or a successfully quoted value (C14.Q4)", 1)
 	needsQuoteExact(ctx, "U6", "U7")
 	parseFileRaw(ctx, "U9")
+	ctx.Rule("U10", "applying updates cannot crash: bounds engine over applyScriptUpdates (it runs deferred, outside any catch frame; a panic there loses every update and the verdict)", 1)
+	if au := ctx.Need("U10", "testscript", "(*TestScript).applyScriptUpdates"); au != nil {
+		totality(ctx, []*ssa.Function{au}, totalOpts{rule: "U10", stop: func(f *ssa.Function) bool {
+			return f.Pkg == nil || f.Pkg.Pkg.Path() != tsPkg || f.Name() != "applyScriptUpdates"
+		}, allowPanic: func(pn *ssa.Panic) string {
+			if mi, ok := pn.X.(*ssa.MakeInterface); ok {
+				if _, isK := ssax.ConstString(mi.X); isK {
+					return "constant-message internal-error panic (an update for a name that is not in the archive)"
+				}
+			}
+			return ""
+		}})
+	}
+	markerLineExact(ctx, "U11")
 	ctx.Rule("U8", "entry registration: in setup's loop over the archive's files every iteration stores scriptFiles[path] = entry Name, unconditionally, with the very path the entry's data is written to; cmp resolves its second argument through this map, so the update lands in the entry whose data is on disk (for two entries resolving to one path that is the later one)", 1)
 	ctx.Rule("U4", "a failure while applying updates is reported through T, never by the Fatalf sentinel outside a catch frame (C01.V11)", 1)
 
